@@ -36,12 +36,16 @@ class Ctx:
         self.route = route
         self.twin = twin
         self.obs = []
+        self.hobs = []      # detailed observations compared only between concrete replays of one input under different hash seeds
         self.reach_calls = 0
         self.reached = False
         self.exclude = exclude or []
 
     def observe(self, *things):
         self.obs.append(things)
+
+    def observe_detail(self, *things):
+        self.hobs.append(things)
 
     def observe_outcome(self, o):
         self.obs.append((o.status, o.base, o.code, [d[1] for d in o.diags if d[0] != "warning"]))
@@ -66,6 +70,7 @@ class Ob:
     twin: bool = True
     pre: str = ""  # human-readable pre-condition (documentation; the harness enforces it)
     shrink: Optional[Dict[str, Any]] = None  # params override used for the one retry
+    hashseeds: Optional[List[int]] = None    # replay the twin witness in fresh processes under these PYTHONHASHSEED values too
 
 
 def load_harness(spec):
@@ -122,15 +127,18 @@ def run_concrete(ob_harness, params, values, route, exclude=None):
         res["tb"] = traceback.format_exc()[-2000:]
     res["reached"] = ctx.reached or ctx.reach_calls == 0
     res["obs"] = _jsonable(ctx.obs)
+    res["hobs"] = _jsonable(ctx.hobs)
     return res
 
 
-def replay_subprocess(harness, params, values, route="text", timeout=120):
+def replay_subprocess(harness, params, values, route="text", timeout=120, hashseed=None):
     """Replay under the repository's own interpreter (3.12, no CrossHair)."""
     req = json.dumps({"harness": harness, "params": params, "values": _jsonable(values), "route": route})
     env = dict(os.environ)
     env["PYTHONPATH"] = common.VERIF + os.pathsep + common.REPO
     env.pop("PDPY11_VERIF", None)
+    if hashseed is not None:
+        env["PYTHONHASHSEED"] = str(hashseed)
     try:
         p = subprocess.run([PY_REPLAY, "-m", "pdpverif.replay", "--worker"], input=req, capture_output=True,
                            text=True, timeout=timeout, env=env, cwd=common.VERIF)
@@ -246,6 +254,21 @@ def _work(ob: Ob, known: List[Dict[str, Any]], conn):
                                        f"traced={json.dumps(traced_obs)[:600]} concrete={json.dumps(rp.get('obs'))[:600]}")
                 conn.send(res)
                 return
+            if ob.hashseeds and rp.get("ok") is True:
+                # process start-up state no function sees: the same input in fresh processes under different string-hash seeds
+                ref = None
+                for hs in ob.hashseeds:
+                    rp2 = replay_subprocess(ob.harness, ob.params, tv.cex, hashseed=hs)
+                    res["replays"] += 1
+                    if rp2.get("harness_error"):
+                        continue
+                    if ref is None:
+                        ref = (hs, rp2)
+                    if rp2.get("ok") is not True or rp2.get("obs") != ref[1].get("obs") or rp2.get("hobs") != ref[1].get("hobs"):
+                        res["twin"]["witness_claim_failed"] = True
+                        res["twin"]["hash_dependent"] = [ref[0], hs]
+                        res["twin"]["replay_full"] = {"hashseeds": [ref[0], hs], "this": rp2, "reference": {k: ref[1].get(k) for k in ("ok", "obs", "hobs")}}
+                        break
             res["functions"] = _funcs_entered(ob, tv.cex)
         # ---- 2. claim ----------------------------------------------------------------
         exclude: List[str] = []
@@ -266,8 +289,10 @@ def _work(ob: Ob, known: List[Dict[str, Any]], conn):
                     # claim fails there: a reproduced failing input against the real code.  (Typical cause: behaviour that
                     # depends on what the same process did before, which the exploration inside one worker cannot see.)
                     wit = res["twin"]["witness"]
-                    cex = {"values": wit, "detail": "claim holds on every explored path inside the worker but fails on the twin witness "
-                                                    "replayed in a fresh process through the literal-text route", "replay": res["twin"].get("replay_full")}
+                    cex = {"values": wit, "detail": ("claim holds on every explored path inside the worker but fails on the twin witness "
+                                                     "replayed in a fresh process through the literal-text route") if "hash_dependent" not in res["twin"] else
+                                                    (f"the outcome of the twin witness differs between fresh processes with PYTHONHASHSEED={res['twin']['hash_dependent']}: "
+                                                     "the result depends on string hashing"), "replay": res["twin"].get("replay_full")}
                     matched = _match_known(known, ob.oid, _unjson(wit) if isinstance(wit, dict) else {}, exclude)
                     if matched is not None:
                         res["known"].append({"id": matched["id"], "what": matched["what"], "cex": cex})
